@@ -3,6 +3,7 @@ package main
 import (
 	"fmt"
 	"go/ast"
+	"go/token"
 	"go/types"
 	"strings"
 )
@@ -17,6 +18,45 @@ func runC02(r *Run) {
 	r.rule("C02.R1", "share delta balance: TotalShare and UndelegatableShare move by the same symbol; OperatorShare moves by it iff the staker is associated with that operator; associate/dissociate move exactly the staker's existing share", 8)
 	r.rule("C02.R2", "delegator-list maintenance with the shares", 8)
 	r.rule("C02.R3", "rounding direction and last-share rules", 5)
+	// delegation keys are stakerID/assetID/operator with variable-length ids: a partial key used as an iterator
+	// prefix ends with the separator, otherwise the ids that merely extend it (…_0x65 / …_0x651) are visited too
+	{
+		n := 0
+		for _, fv := range w.allViews() {
+			if !strings.HasPrefix(fv.ID(), "x/delegation/keeper.") {
+				continue
+			}
+			for _, c := range fv.CallsNamed("IterateDelegations") {
+				if len(c.Args) != 3 {
+					continue
+				}
+				n++
+				good := false
+				for _, d := range fv.resolveDefs(c.Args[1], 0) {
+					switch x := stripParens(d).(type) {
+					case *ast.CallExpr:
+						fn := exprString(x.Fun)
+						if strings.Contains(fn, "IteratorPrefix") {
+							good = true
+						}
+						if fn == "[]byte" && len(x.Args) == 1 {
+							if b, isB := stripParens(x.Args[0]).(*ast.BinaryExpr); isB && b.Op == token.ADD && exprString(b.Y) == `"/"` {
+								good = true
+							}
+						}
+					case *ast.Ident:
+						if x.Name == "nil" || isParamOf(fv, x) {
+							good = true // the whole family, or handed through from a caller that is checked itself
+						}
+					}
+				}
+				r.check(good, "C02.R1", "iterator-prefix|"+fv.ID()+"|"+exprString(c.Args[1]), fv.pos(c), "a partial delegation key used as iterator prefix ends with the key separator", fv.ID()+" iterates the delegations under the prefix "+exprString(c.Args[1])+", which does not end with the separator: the delegations of every staker whose id extends this one are visited too (their shares are moved into or out of the operator's self-share)")
+			}
+		}
+		if n < 2 {
+			r.bad("C02.R1", "iterator-prefix|none", "-", "prefix iterations found", "fewer than two IterateDelegations call sites found")
+		}
+	}
 	// the delegator list is a set kept in arrival order: "already listed" is decided by comparing the staker
 	// with every element (a binary search would need a sorted list)
 	if av := w.View("x/delegation/keeper", "Keeper.AppendStakerForOperator"); av != nil {
